@@ -81,15 +81,18 @@ def _copy_spec(d):
             shutil.copy(os.path.join(SPEC, f), d)
 
 
-def run_tlc(d, module, args, timeout, workers=None):
+def run_tlc(d, module, args, timeout, workers=None, java_opts=None):
     cmd = ["tlc", "-metadir", os.path.join(d, "md")]
+    env = None
+    if java_opts:
+        env = dict(os.environ, JAVA_TOOL_OPTIONS=(os.environ.get("JAVA_TOOL_OPTIONS", "") + " " + java_opts).strip())
     if workers:
         cmd += ["-workers", str(workers)]
     cmd += args + [module]
     t0 = time.time()
     try:
         p = subprocess.run(cmd, cwd=d, stdout=subprocess.PIPE, stderr=subprocess.STDOUT, text=True,
-                           timeout=timeout, errors="replace")
+                           timeout=timeout, errors="replace", env=env)
         out, rc = p.stdout, p.returncode
     except subprocess.TimeoutExpired as e:
         subprocess.run(["pkill", "-f", "tlc2.TL[C].*" + re.escape(d)])
@@ -162,13 +165,14 @@ def _simulate_one(args):
         os.makedirs(os.path.join(d, "b"))
         rc, out, wall = run_tlc(d, module + ".tla",
                                 ["-simulate", "file=%s,num=%d" % (os.path.join(d, "b", "t"), num),
-                                 "-depth", str(depth), "-seed", str(seed)], timeout, workers=1)
+                                 "-depth", str(depth), "-seed", str(seed)], timeout, workers=1,
+                                java_opts="-Xmx3g")        # (eight of these run side by side; the JVM default is a quarter of the RAM each)
         files = sorted(os.listdir(os.path.join(d, "b")))
         if not files:
             return ("error", "TLC simulation produced no behaviours:\n" + out[-3000:])
         if rc == -9:
-            # killed by the timeout: the file being written is truncated -- inconclusive, never a crash
-            return ("error", "TLC simulation of %s timed out after %ds (%d behaviours written)" % (cfg_name, timeout, len(files)))
+            # killed (by the timeout, or by the kernel under memory pressure): the file being written is truncated -- inconclusive, never a crash
+            return ("error", "TLC simulation of %s was killed (timeout %ds or out of memory; %d behaviours written)" % (cfg_name, timeout, len(files)))
         behs = []
         for f in files:
             try:
